@@ -167,6 +167,11 @@ func (s *Sys) wouldBlock(t *Thread) bool {
 		_ = rf
 		s.mu.Lock()
 		w := s.writers
+		for _, rw := range t.txStack { // not the one this thread may have acquired meanwhile
+			if rw {
+				w--
+			}
+		}
 		s.mu.Unlock()
 		return w > 0
 	case "commit-wait-exclusive":
